@@ -68,7 +68,7 @@ func readTimezoneModifier(assets flows.SessionAssets, data json.RawMessage, miss
 	var tz *time.Location
 	if e.Timezone != "" {
 		var err error
-		tz, err = time.LoadLocation(e.Timezone)
+		tz, err = envs.LoadTimezone(e.Timezone)
 		if err != nil {
 			return nil, err
 		}
